@@ -49,7 +49,7 @@ def do_import(nid, src):
 def do_run(nid, props=None):
     dst = os.path.join(ROOT, 'neutral', nid)
     meta = json.load(open(os.path.join(dst, 'meta.json')))
-    props = props or [meta.get('property', nid.split('-')[0])]
+    props = props or meta.get('properties') or [meta.get('property', nid.split('-')[0])]
     rc, out = sh(f'git -C {REPO} status --porcelain')
     if out.strip():
         print('refusing: /repo has uncommitted changes')
